@@ -39,15 +39,16 @@ def run(ctx):
         ctx.tlc_mc(fam, "BTree", "BTree_MC_big.cfg", workers=16, timeout=3000)
         ctx.tlc_mc(fam, "BTreeMech", "BTreeMech_MC_big.cfg", workers=16, timeout=3000, heap="16g")
         ctx.tlc_mc(fam, "BTreeMech", "BTreeMech_MC_deg3.cfg", workers=16, timeout=3000, heap="16g")
+        ctx.tlc_mc(fam, "BTreeMech", "BTreeMech_MC_wrap_big.cfg", workers=16, timeout=3000, heap="16g")
     # 2. plans out of the spec
-    pdir, plans = ctx.tlc_plans(fam, "BTree_Gen", "BTree_Gen.cfg", num=ctx.q(110, 1200), depth=40)
+    pdir, plans = ctx.tlc_plans(fam, "BTree_Gen", "BTree_Gen.cfg", num=ctx.q(50, 300), depth=40)
     plans = dedupe_prefix(plans)
     # 3. execute against the real code
     binary = ctx.go_build("c03")
     ctx.harness(binary, ["-plans", pdir, "-out", ctx.path("seq.ndjson"), "-conc", ctx.path("conc.ndjson"),
-                         "-seed", ctx.seed, "-hist", ctx.q(60, 900), "-maxops", ctx.q(160, 400),
-                         "-npar", ctx.q(12, 200), "-nconc", ctx.q(60, 1200), "-nstress", ctx.q(6, 100),
-                         "-sweep", ctx.q(1, 2), "-stats", ctx.path("stats.json")],
+                         "-seed", ctx.seed, "-hist", ctx.q(50, 250), "-maxops", ctx.q(160, 400),
+                         "-npar", ctx.q(12, 150), "-nconc", ctx.q(60, 1200), "-nstress", ctx.q(6, 100),
+                         "-sweep", ctx.q(4, 10), "-stats", ctx.path("stats.json")],
                 timeout=1800)
     # 4. validate what the real code did
     seq = ctx.load_traces(ctx.path("seq.ndjson"))
